@@ -166,6 +166,9 @@ pub struct Program {
 	pub defs: Vec<Def>,
 	/// the root carries a lifetime parameter (borrowed leaves)
 	pub lifetime: bool,
+	/// `#[avro_schema(namespace = ..)]` on defs of any kind: (def index, namespace)
+	#[serde(default)]
+	pub ns_attr: Vec<(usize, String)>,
 }
 
 fn field_name(i: usize) -> String {
@@ -199,10 +202,16 @@ impl<'p> Placed<'p> {
 			None => self.ident(i),
 		}
 	}
+	pub fn ns_override(&self, i: usize) -> Option<String> {
+		if let Def::Struct { ns: Some(ns), .. } = &self.p.defs[i] {
+			return Some(ns.clone());
+		}
+		self.p.ns_attr.iter().find(|(d, _)| *d == i).map(|(_, ns)| ns.clone())
+	}
 	/// namespace the derive is expected to give (module path, or the override)
 	pub fn ns(&self, i: usize) -> String {
-		if let Def::Struct { ns: Some(ns), .. } = &self.p.defs[i] {
-			return ns.clone();
+		if let Some(ns) = self.ns_override(i) {
+			return ns;
 		}
 		match self.module(i) {
 			Some(m) => format!("{}.{}.{m}", self.crate_name, self.family),
@@ -367,6 +376,8 @@ impl<'p> Placed<'p> {
 					FieldTy::Plain(t) => self.ty_branch(t),
 					FieldTy::Bytes | FieldTy::BBytes => Some("Bytes".into()),
 					FieldTy::Fixed(_) => Some(self.fullname(*i)),
+					FieldTy::Logical(Lg::DecFixed { .. }) | FieldTy::Logical(Lg::CustomFixed(_)) => Some(self.fullname(*i)),
+					FieldTy::Logical(Lg::Duration) => Some("Duration".into()),
 					FieldTy::OptBytes | FieldTy::Logical(_) => None,
 				},
 				Def::Union { .. } | Def::Generic { .. } => None,
@@ -378,9 +389,20 @@ impl<'p> Placed<'p> {
 		match f {
 			FieldTy::Plain(t) => self.ty_branch(t),
 			FieldTy::Bytes | FieldTy::BBytes => Some("Bytes".into()),
-			FieldTy::Fixed(_) => Some(format!("{}.{}.V{variant_pos}", self.ns(owner), self.ident(owner))),
-			FieldTy::OptBytes | FieldTy::Logical(_) => None,
+			FieldTy::Fixed(_) => Some(self.variant_owned_name(owner, variant_pos)),
+			// logical types as variants: the crate names such branches after the logical type,
+			// or after the fixed they annotate when that is what carries the identity
+			FieldTy::Logical(l) => match l {
+				Lg::Alt(inner) => self.variant_branch(&FieldTy::Logical((**inner).clone()), owner, variant_pos),
+				Lg::Duration => Some("Duration".into()),
+				Lg::DecFixed { .. } | Lg::CustomFixed(_) => Some(self.variant_owned_name(owner, variant_pos)),
+				_ => None,
+			},
+			FieldTy::OptBytes => None,
 		}
+	}
+	fn variant_owned_name(&self, owner: usize, variant_pos: usize) -> String {
+		Self::join(&self.ns(owner), &format!("{}.V{variant_pos}", self.ident(owner)))
 	}
 	/// positions of the data variants in the Rust enum (the unit variant takes one position)
 	pub fn variant_positions(n: usize, unit_at: Option<usize>) -> Vec<usize> {
@@ -576,12 +598,17 @@ impl<'p> Placed<'p> {
 		let vis = if in_sub { "pub " } else { "" };
 		let rec_guard = if heads.contains(&i) { "\t\tif rec == 0 {\n\t\t\treturn Vec::new();\n\t\t}\n\t\tlet rec = rec - 1;\n" } else { "\t\tlet _ = rec;\n" };
 		let mut s = String::new();
+		let ns_attr_line = match self.ns_override(i) {
+			Some(ns) => format!("#[avro_schema(namespace = \"{ns}\")]\n"),
+			None => String::new(),
+		};
 		match &self.p.defs[i] {
 			Def::Struct { fields, ns, name, .. } => {
 				s.push_str(Self::DERIVES);
 				s.push('\n');
 				let mut attrs = Vec::new();
-				if let Some(ns) = ns {
+				let _ = ns;
+				if let Some(ns) = self.ns_override(i) {
 					attrs.push(format!("namespace = \"{ns}\""));
 				}
 				if let Some(n) = name {
@@ -616,13 +643,13 @@ impl<'p> Placed<'p> {
 			}
 			Def::Newtype { field } => {
 				let (a, t) = self.field_src(field, lt);
-				s.push_str(&format!("{}\n{vis}struct {id}{decl_lt}({a}{vis}{t});\n", Self::DERIVES));
+				s.push_str(&format!("{}\n{ns_attr_line}{vis}struct {id}{decl_lt}({a}{vis}{t});\n", Self::DERIVES));
 				s.push_str(&format!("impl Dom for {impl_ty} {{\n\tfn values(rec: u32) -> Vec<Self> {{\n{rec_guard}\t\t{}.into_iter().map({id}).collect()\n\t}}\n", self.field_dom(field).0));
 				s.push_str(&format!("\tfn describe(&self, o: &mut String) {{\n\t\to.push_str(\"{{\\\"nt\\\":\");\n\t\t{}\n\t\to.push('}}');\n\t}}\n}}\n", self.field_dom(field).1.replace("$x", "&self.0")));
 			}
 			Def::UnitEnum { symbols } => {
 				let syms: Vec<String> = (0..*symbols).map(|k| ((b'A' + k as u8) as char).to_string()).collect();
-				s.push_str(&format!("{}\n{vis}enum {id} {{\n", Self::DERIVES));
+				s.push_str(&format!("{}\n{ns_attr_line}{vis}enum {id} {{\n", Self::DERIVES));
 				for sy in &syms {
 					s.push_str(&format!("\t{sy},\n"));
 				}
@@ -637,7 +664,7 @@ impl<'p> Placed<'p> {
 			Def::Union { variants, unit_at } => {
 				let pos = Self::variant_positions(variants.len(), *unit_at);
 				let total = variants.len() + unit_at.is_some() as usize;
-				s.push_str(&format!("{}\n{vis}enum {id}{decl_lt} {{\n", Self::DERIVES));
+				s.push_str(&format!("{}\n{ns_attr_line}{vis}enum {id}{decl_lt} {{\n", Self::DERIVES));
 				let mut vals = String::new();
 				let mut desc = String::new();
 				for p in 0..total {
@@ -665,6 +692,7 @@ impl<'p> Placed<'p> {
 			Def::Generic { shape } => {
 				s.push_str(Self::DERIVES);
 				s.push('\n');
+				s.push_str(&ns_attr_line);
 				match shape {
 					0 => {
 						s.push_str(&format!("struct {id}<T> {{\n\ta: T,\n\tb: Vec<T>,\n}}\n"));
